@@ -30,21 +30,25 @@ type Knobs struct {
 	// SmallNumbers keeps counts and sizes small (used by the process warm-up,
 	// which must not depend on how the library treats large numbers)
 	SmallNumbers bool
+	// NestedLists: a member of a list may itself be a (short) list – the gob codec carries such a
+	// value faithfully, and JSON documents with arrays inside arrays exist
+	NestedLists bool
 }
 
 // DrawKnobs draws a knob set from the tape.
 func DrawKnobs(t *core.Tape) Knobs {
 	return Knobs{
-		MaxDepth:   1 + t.Draw(3),
-		FieldP:     2 + t.Draw(7),
-		SpareCap:   t.Bool(1, 2),
-		Links:      t.Bool(1, 2),
-		IDless:     t.Bool(1, 3),
-		ValueForms: t.Bool(1, 2),
-		MaxList:    1 + t.Draw(3),
-		Budget:     4 + t.Draw(28),
-		PlainText:  t.Bool(1, 4),
-		Shared:     t.Bool(1, 4),
+		MaxDepth:    1 + t.Draw(3),
+		FieldP:      2 + t.Draw(7),
+		SpareCap:    t.Bool(1, 2),
+		Links:       t.Bool(1, 2),
+		IDless:      t.Bool(1, 3),
+		ValueForms:  t.Bool(1, 2),
+		MaxList:     1 + t.Draw(3),
+		Budget:      4 + t.Draw(28),
+		PlainText:   t.Bool(1, 4),
+		Shared:      t.Bool(1, 4),
+		NestedLists: t.Bool(1, 4),
 	}
 }
 
@@ -276,6 +280,14 @@ func (g *G) List(depth int, min int) ap.ItemCollection {
 				out = append(out, cand)
 				continue
 			}
+		}
+		if g.K.NestedLists && g.T.Bool(1, 6) {
+			inner := ap.ItemCollection{g.IRI()}
+			if g.T.Bool(1, 2) {
+				inner = append(inner, g.IRI())
+			}
+			out = append(out, inner)
+			continue
 		}
 		if depth >= g.K.MaxDepth || g.used >= g.K.Budget || g.T.Bool(1, 2) {
 			iri := g.IRI()
